@@ -36,11 +36,11 @@ func order(r *hx.Rng, k int) []int {
 	return idx
 }
 
+var thresholds = []int{12, 16, 17, 32, 33, 64, 65, 65, 66, 128, 129, 256, 257}
+
 // rows: k rectangles of height 1 at distinct ordinates (gap 0, 1 or 2 between rows), listed in a chosen order;
-// transposed = columns.
-func rows(r *hx.Rng, n int, transposed bool) ipoly {
-	gap := r.Intn(3)
-	k := min(r.Range(66, 110), (n-1)/(1+gap))
+// transposed = columns.  k is taken from the size thresholds or from 66..110.
+func rows(r *hx.Rng, n, k, gap int, transposed bool) ipoly {
 	y0 := r.Intn(n - k*(1+gap) + 1)
 	fixed := r.Bool()
 	x0, x1 := r.Intn(n/2), r.Range(n/2+1, n)
@@ -63,7 +63,12 @@ func rows(r *hx.Rng, n int, transposed bool) ipoly {
 
 // bigStaircase: one contour with `steps` unit steps, closed along the right and the bottom.
 func bigStaircase(r *hx.Rng, n int) icontour {
-	steps := r.Range(66, n-2)
+	steps := r.Range(min(66, n-3), n-2)
+	if r.Bool() {
+		if t := hx.Pick(r, []int{63, 64, 65, 127, 128, 129}); t <= n-2 {
+			steps = t
+		}
+	}
 	x0, y0 := r.Intn(n-steps), r.Intn(n-steps)
 	var c icontour
 	for i := 0; i < steps; i++ {
@@ -80,7 +85,7 @@ func bigStaircase(r *hx.Rng, n int) icontour {
 
 // comb: one contour with k horizontal teeth (height 1, gap 1) on a vertical spine.
 func comb(r *hx.Rng, n int) icontour {
-	k := min(r.Range(40, 90), (n-1)/2)
+	k := min(r.Range(40, 130), (n-1)/2)
 	y0 := r.Intn(n - 2*k + 1)
 	spine, tip := r.Intn(n/3), r.Range(n/2, n)
 	var c icontour
@@ -101,31 +106,39 @@ func comb(r *hx.Rng, n int) icontour {
 	return decorate(r, c)
 }
 
-func bigLatticePoly(r *hx.Rng, n int) ipoly {
+func bigLatticePoly(r *hx.Rng, n, k, gap int) ipoly {
 	switch r.Intn(6) {
 	case 0, 1:
-		return rows(r, n, false)
+		return rows(r, n, k, gap, false)
 	case 2:
-		return rows(r, n, true)
+		return rows(r, n, k, gap, true)
 	case 3:
 		return ipoly{bigStaircase(r, n)}
 	case 4:
 		return ipoly{comb(r, n)}
 	default:
-		return append(rows(r, n, false), bigStaircase(r, n))
+		return append(rows(r, n, k, gap, false), bigStaircase(r, n))
 	}
 }
 
 func genBigLattice(r *hx.Rng) string {
-	n := r.Range(72, 150)
-	a := bigLatticePoly(r, n)
+	k := r.Range(66, 110)
+	if r.Chance(2, 5) {
+		k = hx.Pick(r, thresholds)
+	}
+	gap := r.Intn(3)
+	if k >= 128 {
+		gap = 0
+	}
+	n := max(72, k*(1+gap)+r.Range(1, 8))
+	a := bigLatticePoly(r, n, k, gap)
 	var b ipoly
 	switch r.Intn(8) {
 	case 0: // a column crossing everything
 		x0 := r.Intn(n - 1)
 		b = ipoly{decorate(r, rect(x0, 0, r.Range(x0+1, n), n))}
 	case 1:
-		b = bigLatticePoly(r, n)
+		b = bigLatticePoly(r, n, k, gap)
 	case 2:
 		b = clampShift(a, r.Range(-1, 1), r.Range(-1, 1), n)
 	case 3:
@@ -140,7 +153,7 @@ func genBigLattice(r *hx.Rng) string {
 	if r.Bool() {
 		a, b = b, a
 	}
-	return hx.Pick(r, ops) + " " + hx.Pick(r, fts) + " L " + strconv.Itoa(n) + " A " + fmtIPoly(a) + " B " + fmtIPoly(b)
+	return hx.Pick(r, ops) + " " + hx.Pick(r, fts) + " L " + strconv.Itoa(n) + " A " + emptyTok(r, fmtIPoly(a)) + " B " + emptyTok(r, fmtIPoly(b))
 }
 
 // ---------------------------------------------------------------------------------------------- big general position
@@ -161,7 +174,16 @@ func quant(v float64, ft string) float64 {
 // ngon: regular or radially perturbed polygon with n vertices; phase chooses the first vertex (top, bottom, random).
 func ngon(r *hx.Rng, ft string, span float64) fcontour {
 	n := r.Range(100, 400)
+	switch r.Intn(8) {
+	case 0, 1:
+		n = hx.Pick(r, []int{63, 64, 65, 127, 128, 129, 255, 256, 257, 258, 259, 260, 261})
+	case 2:
+		n = r.Range(1000, 1500)
+	}
 	rad := span * (0.15 + 0.3*rnd(r))
+	if n >= 1000 {
+		rad = span * (0.4 + 0.05*rnd(r))
+	}
 	cx := rad + (span-2*rad)*rnd(r)
 	cy := rad + (span-2*rad)*rnd(r)
 	ry := rad
@@ -237,6 +259,32 @@ func smallPoly(r *hx.Rng, ft string, span float64) fpoly {
 	return fpoly{c}
 }
 
+// hatch: k thin slanted strips; two hatches of opposite slant cross k*k times, many crossings per scan beam, and the
+// result has up to k*k contours.
+func hatch(r *hx.Rng, ft string, span float64, left bool) fpoly {
+	k := hx.Pick(r, []int{3, 4, 5, 6, 8, 9, 12, 16, 17, 18})
+	s := span / 2 / float64(k)
+	var p fpoly
+	j := func() float64 { return span * 0.004 * (2*rnd(r) - 1) }
+	for i := 0; i < k; i++ {
+		x0 := span*0.05 + float64(i)*s
+		w := s * (0.3 + 0.2*rnd(r))
+		sh := span * 0.3
+		y0, y1 := span*0.1, span*0.9
+		var c fcontour
+		if left {
+			c = fcontour{{x0 + sh + j(), y0 + j()}, {x0 + sh + w + j(), y0 + j()}, {x0 + w + j(), y1 + j()}, {x0 + j(), y1 + j()}}
+		} else {
+			c = fcontour{{x0 + j(), y0 + j()}, {x0 + w + j(), y0 + j()}, {x0 + w + sh + j(), y1 + j()}, {x0 + sh + j(), y1 + j()}}
+		}
+		for q := range c {
+			c[q] = fpt{quant(c[q].x, ft), quant(c[q].y, ft)}
+		}
+		p = append(p, c)
+	}
+	return p
+}
+
 func bigPoly(r *hx.Rng, ft string, span float64) fpoly {
 	switch r.Intn(5) {
 	case 0:
@@ -279,7 +327,12 @@ func genBigGeneral(r *hx.Rng) string {
 		span := hx.Pick(r, []float64{1000, 1000, 7000})
 		a := bigPoly(r, ft, span)
 		var b fpoly
-		switch r.Intn(6) {
+		switch r.Intn(7) {
+		case 6: // two hatches of opposite slant (or a hatch against a big polygon)
+			b = hatch(r, ft, span, true)
+			if r.Chance(2, 3) {
+				a = hatch(r, ft, span, false)
+			}
 		case 0:
 			b = bigPoly(r, ft, span)
 		case 1:
@@ -297,6 +350,8 @@ func genBigGeneral(r *hx.Rng) string {
 			continue
 		}
 		pts := samplePointsIn(r, a, b, crossings, 100, span, bigSampM)
+		rotateStart(r, a)
+		rotateStart(r, b)
 		return pointsLine(hx.Pick(r, ops), ft, bigSampMargin, pts, a, b)
 	}
 }
